@@ -336,6 +336,26 @@ func BuildBase(name string, cfg Config, seed uint32) (*Base, error) {
 		bb.key("n1", 0x00550001) // new key for bucket 1 (full head: takes an overflow bucket)
 		bb.key("n2", 0x00770000) // second new key for bucket 0
 		return bb.finish([]string{"h0", "b1", "m2", "n0", "n1", "n2"}, []string{"p07", "p19", "q05"})
+	case "SM":
+		// ROLLM (= ROLL with a minimum segment size for compaction of header+60): a full segment of three
+		// puts (578 bytes), a sealed SMALL segment [put a, del d, del e] (570 bytes, below the minimum) and a
+		// current segment [put b, put b]: a Delete(a) makes the current segment eligible and delete-bearing,
+		// so compaction has to take every older segment - including the small one that holds a's put.
+		bb.key("a", 0x11110000)
+		bb.key("b", 0x22220001)
+		bb.key("c", 0x11110000)
+		bb.key("d", 0x33330002)
+		bb.key("e", 0x44440003)
+		bb.key("n", 0x55550004)
+		bb.put("b")
+		bb.put("d")
+		bb.put("e")
+		bb.put("a")
+		bb.del("d")
+		bb.del("e")
+		bb.put("b")
+		bb.put("b")
+		return bb.finish([]string{"a", "b", "c", "d", "e", "n"}, nil)
 	case "S4":
 		// ROLL: a sealed segment of three live puts (not eligible for compaction) and a current segment
 		// holding an overwritten record (eligible, no delete records): a Delete slipped in between
